@@ -288,7 +288,8 @@ func ClassifyErr(err error, self party.ID, culprits []party.ID) string {
 	if i := strings.Index(t, ": "); i >= 0 && strings.HasPrefix(t, "culprits: ") {
 		t = t[strings.Index(t, "]: ")+3:]
 	}
-	if strings.HasPrefix(t, "round ") || strings.HasPrefix(t, "failed to unmarshal") || strings.HasPrefix(t, "got broadcast message") {
+	if strings.HasPrefix(t, "round ") || strings.HasPrefix(t, "failed to unmarshal") || strings.HasPrefix(t, "got broadcast message") ||
+		strings.HasPrefix(t, "panic while processing message") {
 		return "detected"
 	}
 	return "proto"
